@@ -128,7 +128,7 @@ class ListTree:
             marked = self._marked.get(name)
             yield ListEntry(name, node.exists, marked, bool(node.children))
         for child in node.children.values():
-            if name:
+            if node.parent is not None:
                 child_name = self._delimiter.join((name, child.name))
             else:
                 child_name = child.name
